@@ -337,6 +337,24 @@ fn exec_decoded(plan: &Plan, st: &mut Stats) -> Result<(), Violation> {
                         let d = sl.path.expected_dist().map(|d| d + f64::from(dx));
                         *sl.path.expected_dist_mut() = d;
                     }
+                    4 | 5 => {
+                        // shapes only the API can build (the decoder retags or rejects them): a collinear, unevenly spaced
+                        // perfect curve, perfect curves of two and four points, a typed last point, an untyped first point
+                        let t = |c: i64| ptype(c);
+                        let pc = |c: i64, x: f32, y: f32| PathControlPoint { pos: Pos::new(x, y), path_type: t(c) };
+                        let lists: [Vec<PathControlPoint>; 6] = [
+                            vec![pc(3, 0.0, 0.0), pc(-1, 30.0, 30.0), pc(-1, 100.0, 100.0)],
+                            vec![pc(3, 0.0, 0.0), pc(-1, 50.0, 0.0)],
+                            vec![pc(3, 0.0, 0.0), pc(-1, 50.0, 40.0), pc(-1, 100.0, 0.0), pc(-1, 150.0, 40.0)],
+                            vec![pc(1, 0.0, 0.0), pc(-1, 60.0, 10.0), pc(2, 120.0, 0.0)],
+                            vec![pc(-1, 0.0, 0.0), pc(-1, 40.0, 40.0), pc(3, 80.0, 0.0), pc(-1, 120.0, 40.0), pc(-1, 160.0, 0.0)],
+                            vec![pc(3, 10.0, 10.0), pc(-1, 20.0, 20.0), pc(-1, 40.0, 40.0), pc(2, 40.0, 40.0), pc(-1, 90.0, 40.0)],
+                        ];
+                        let l = &lists[(dx.abs() as usize + dy.abs() as usize) % lists.len()];
+                        let cps = sl.path.control_points_mut();
+                        cps.clear();
+                        cps.extend_from_slice(l);
+                    }
                     _ => {
                         if let Some(c) = sl.path.control_points_mut().first_mut() {
                             c.pos = Pos::new(c.pos.x + dx, c.pos.y + dy);
@@ -497,7 +515,7 @@ impl Scenario for C18 {
             }
             if rng.chance(1, 3) {
                 for _ in 0..1 + rng.below(3) {
-                    p.ops.push(Op::new("edit", &[rng.below(64) as f64, rng.below(4) as f64, *rng.pick(&[16.0, -8.0, 0.5, 100.0, 0.0]), *rng.pick(&[-8.0, 16.0, 0.25, 0.0, -100.0])]));
+                    p.ops.push(Op::new("edit", &[rng.below(64) as f64, rng.below(6) as f64, *rng.pick(&[16.0, -8.0, 0.5, 100.0, 0.0]), *rng.pick(&[-8.0, 16.0, 0.25, 0.0, -100.0])]));
                 }
             }
             return p;
@@ -659,6 +677,13 @@ impl Scenario for C18 {
                     let got = if op.k == "owned" {
                         st.inc("ops.compute-owned");
                         let c = Curve::new(mode, pts, len, &mut bufs);
+                        if c.path().len() <= 64 {
+                            // everything a curve shows of itself (Debug covers every field, also ones added later)
+                            let f = Curve::new(mode, pts, len, &mut CurveBuffers::default());
+                            if format!("{c:?}") != format!("{f:?}") {
+                                return Err(Violation::new("C18/differs-from-fresh-buffers", "whole-curve", format!("op #{i}: the Debug rendering of the owned curve computed on the shared buffers differs from the one computed on fresh buffers ({} control points)\n shared: {c:?}\n fresh : {f:?}", pts.len())));
+                            }
+                        }
                         snap(c.path(), c.lengths())
                     } else {
                         let c = BorrowedCurve::new(mode, pts, len, &mut bufs);
@@ -722,6 +747,13 @@ impl Scenario for C18 {
                                         return Err(Violation::new("C18/differs-from-fresh-buffers", "evaluation", format!("op #{i}: position_at({pr}) = {a:?} on an owned curve with a lookup history, {b:?} on the borrowed view, {cc:?} on a cold copy")));
                                     }
                                 }
+                            }
+                        }
+                        if c.path().len() <= 64 {
+                            let mut fb = CurveBuffers::default();
+                            let f = BorrowedCurve::new(mode, pts, len, &mut fb);
+                            if format!("{c:?}") != format!("{f:?}") {
+                                return Err(Violation::new("C18/differs-from-fresh-buffers", "whole-curve", format!("op #{i}: the Debug rendering of the borrowed curve computed on the shared buffers differs from the one computed on fresh buffers ({} control points)\n shared: {c:?}\n fresh : {f:?}", pts.len())));
                             }
                         }
                         let back = o.as_borrowed_curve();
